@@ -50,6 +50,8 @@ def gen_cases(rng, tier):
       k = min(k, 100)
     if target in ("DLPOLY", "DL_POLY"):
       k = rng.choice([7, 11, 99, 103, 999])
+    if target == "LAMMPS":
+      k = max(k, 2)   # C01's domain is nr >= 3 (nr = 2 leaves a single row; degenerate grids are C16's)
     cases.append({"kind": "table", "step": str(s), "k": k, "target": target, "combo": rng.choice(["nr_dr", "cutoff_nr", "cutoff_dr"]),
                   "step_rho": str(rng.choice(steps)), "k_rho": rng.choice([1, 2, 3, 7, 10, 99]), "combo_rho": rng.choice(["nr_dr", "cutoff_nr", "cutoff_dr"])})
   return cases
